@@ -486,7 +486,11 @@ func vdbMemSequence(c *Ctx, seq int) {
 			abandoned = append(abandoned, popped...)
 			chain = chain[:from]
 			txStart = txStart[:len(txStart)-1]
-			if got := db.GetFrontierIdentifier(m.Frontier()); got != frontierID() {
+			if got, okf := vdbMemFrontierID(m); !okf {
+				c.Fail("vdb-mem seq=%d: after the pop of the transaction %s…%s (%d commit(s)) the manager has no frontier database any more (Frontier() is nil or unreadable), expected the version %s before the transaction", seq,
+					idStr(popped[0]), idStr(popped[len(popped)-1]), len(popped), verKey(frontierID()))
+				return
+			} else if got != frontierID() {
 				c.Fail("vdb-mem seq=%d: after the pop of the transaction %s…%s (%d commit(s)) the frontier is %s, expected %s - the version before the transaction", seq,
 					idStr(popped[0]), idStr(popped[len(popped)-1]), len(popped), verKey(got), verKey(frontierID()))
 				return
@@ -665,4 +669,16 @@ func vdbMemSequence(c *Ctx, seq int) {
 			}
 		}
 	}
+}
+
+// vdbMemFrontierID: the identifier the manager's frontier database carries; a manager without a frontier database answers the zero identifier
+func vdbMemFrontierID(m db.Manager) (id types.HashHeight, ok bool) {
+	f := m.Frontier()
+	if f == nil {
+		return types.ZeroHashHeight, false
+	}
+	if p := safely(func() { id = db.GetFrontierIdentifier(f) }); p != "" {
+		return types.ZeroHashHeight, false
+	}
+	return id, true
 }
